@@ -185,6 +185,14 @@ def nontrivial(c, r):
 
 # ---------------------------------------------------------------- end to end: injected comments survive
 
+OPTION_PRESETS = [
+    [["fn_single_line", "true"]], [["group_imports", "StdExternalCrate"]], [["imports_granularity", "Crate"]], [["match_arm_blocks", "false"]],
+    [["brace_style", "AlwaysNextLine"], ["control_brace_style", "AlwaysNextLine"]], [["struct_lit_single_line", "false"], ["empty_item_single_line", "false"]],
+    [["where_single_line", "true"], ["fn_params_layout", "Compressed"]], [["use_small_heuristics", "Max"]], [["use_small_heuristics", "Off"]], [["indent_style", "Visual"]],
+    [["reorder_impl_items", "true"]], [["normalize_comments", "true"]], [["wrap_comments", "true"], ["comment_width", "40"]], [["overflow_delimited_expr", "true"]],
+    [["match_block_trailing_comma", "true"], ["trailing_comma", "Never"]], [["single_line_if_else_max_width", "0"]], [["fn_params_layout", "Vertical"]], [["hard_tabs", "true"]],
+    [["imports_granularity", "Item"], ["group_imports", "One"]], [["style_edition", "2024"], ["fn_single_line", "true"]],
+]
 E2E_KINDS = ["item", "assoc_item", "stmt", "field", "variant", "arm", "param", "arg", "expr_field"]
 
 
@@ -232,9 +240,12 @@ def e2e(rep, tier, seed):
                     cfgs = [p["header"]]
                     if n % 2 == 0 and not any(k in ("style_edition", "version") for k, _ in p["header"]):
                         cfgs.append(pool.merged(p["header"], [["style_edition", "2024"]]))
-                    else:
+                    elif n % 4 == 1:
                         # and at another width (the comment then sits next to different line breaks)
-                        cfgs.append(pool.merged(p["header"], [["max_width", ["30", "50", "70", "140"][n % 4]]]))
+                        cfgs.append(pool.merged(p["header"], [["max_width", ["30", "50", "70", "140"][(n // 4) % 4]]]))
+                    else:
+                        # and under another layout option ("every option combination": one preset per injection, rotating)
+                        cfgs.append(pool.merged(p["header"], OPTION_PRESETS[(n // 4) % len(OPTION_PRESETS)]))
                     for cfg in cfgs:
                         cases.append({"text": text.decode("utf-8", "replace"), "config": cfg, "again": False, "lex": False})
                         meta.append((p["id"], kind, style, mark))
@@ -270,6 +281,50 @@ def e2e(rep, tier, seed):
             text = b[:off] + ("/* %s */ " % mark).encode() + b[off:]
             cases.append({"text": text.decode("utf-8", "replace"), "config": p["header"], "again": False, "lex": False})
             meta.append((p["id"], "stmt", "inside", mark))
+    # import runs with comments, empty lists included (their list item is the only carrier of the comments next to them)
+    ri = random.Random("c03-imports-%d" % (seed if tier != "thorough" else 0))
+    roots = ["std", "core", "alloc", "crate", "super", "foo", "bar", "baz", "serde", "tokio"]
+    for ii in range(40 if tier != "thorough" else 400):
+        decls, marks = [], []
+        used = set()
+        for k in range(ri.randint(3, 6)):
+            r = ri.choice([x for x in roots if x not in used])
+            used.add(r)
+            body = ri.choice(["%s::a", "%s::{b, a}", "%s::{}", "%s::x::{}", "%s::*", "%s::m::{self, z}"]) % r
+            pre = post = ""
+            if ri.random() < 0.5:
+                m = "IMP%d_%dQ" % (ii, len(marks))
+                marks.append(m)
+                pre = ri.choice(["// %s\n", "/* %s */\n", "// %s\n// second line\n"]) % m
+            if ri.random() < 0.4:
+                m = "IMP%d_%dQ" % (ii, len(marks))
+                marks.append(m)
+                post = " // %s" % m
+            decls.append(pre + "use " + body + ";" + post)
+        text = "\n".join(decls) + "\n\nfn after() {}\n"
+        cfg = [["group_imports", ri.choice(["Preserve", "StdExternalCrate", "One"])], ["imports_granularity", ri.choice(["Preserve", "Preserve", "Item", "Module", "Crate", "One"])],
+               ["reorder_imports", ri.choice(["true", "true", "false"])]]
+        for m in marks:
+            cases.append({"text": text, "config": cfg, "again": False, "lex": False})
+            meta.append(("synthimports/%d" % ii, "import", "run", m))
+    # bodies that an option may put on ONE line (fn_single_line, single-line if/else, flattened match arms, single-line
+    # struct literals, empty items): a comment before / after their only statement must survive the collapse
+    ONE = ["fn answer() -> u32 {\n    42 %s\n}\n", "fn f() {\n    call(); %s\n}\n", "fn g() -> u8 {\n    %s\n    1\n}\n", "impl S {\n    fn m(&self) -> u8 {\n        self.0 %s\n    }\n}\n",
+           "fn h() {\n    let k = || {\n        1 %s\n    };\n}\n", "fn i() -> u8 {\n    if a {\n        1 %s\n    } else {\n        2\n    }\n}\n", "fn j() -> u8 {\n    if a {\n        1\n    } else {\n        2 %s\n    }\n}\n",
+           "fn k() -> u8 {\n    match v {\n        A => {\n            1 %s\n        }\n        _ => 0,\n    }\n}\n", "fn l() {\n    let s = S {\n        a: 1, %s\n        b: 2,\n    };\n}\n", "struct E {\n    %s\n}\n",
+           "enum F {\n    %s\n}\n", "impl T for U {\n    %s\n}\n", "fn n() {\n    %s\n}\n", "trait W {\n    fn d(&self) -> u8 {\n        7 %s\n    }\n}\n", "fn o() -> u8 {\n    unsafe {\n        p() %s\n    }\n}\n",
+           "fn q<T>(t: T) -> T\nwhere\n    T: Copy, %s\n{\n    t\n}\n", "fn r() {\n    let Some(x) = y else {\n        return; %s\n    };\n}\n"]
+    ONE_CFG = [[], [["fn_single_line", "true"]], [["fn_single_line", "true"], ["style_edition", "2024"]], [["match_arm_blocks", "false"]], [["single_line_if_else_max_width", "100"], ["use_small_heuristics", "Max"]],
+               [["struct_lit_single_line", "true"], ["use_small_heuristics", "Max"]], [["empty_item_single_line", "true"], ["brace_style", "PreferSameLine"]], [["where_single_line", "true"]],
+               [["single_line_let_else_max_width", "100"]], [["fn_single_line", "true"], ["max_width", "40"]]]
+    oi = 0
+    for fi, form in enumerate(ONE):
+        for cm in ("// %s", "/* %s */"):
+            for ci, cfg in enumerate(ONE_CFG):
+                oi += 1
+                mark = "ONE%dQ" % oi
+                cases.append({"text": form % (cm % mark), "config": cfg, "again": False, "lex": False})
+                meta.append(("synthone/f%d.c%d" % (fi, ci), "body", "single_line_option", mark))
     # synthetic: a comment where no rewriter places one (between an operand and the operator), so that only the
     # safety net keeps it, preceded by literals whose quotes / comment openers the classifier must not misread
     LITS = ["'\"'", "b'\"'", "'\\''", "\"\\\"\"", "r#\"\"\"#", "'a'", "\"//\"", "\"/*\"", "'/'", "b\"*/\"", "'\\\\'"]
@@ -292,12 +347,17 @@ def e2e(rep, tier, seed):
         cnt = r["out"].count(mark)
         if cnt != 1:
             key = "comment_%s:%s:%s:%s" % ("lost" if cnt == 0 else "duplicated", kind, style, pid)
+            if kind == "import":
+                cd = dict(c["config"])
+                empty = "::{}" in c["text"]
+                key = "comment_%s:import:%s" % ("lost" if cnt == 0 else "duplicated",
+                                                  ("empty_import/%s/%s" % (cd["imports_granularity"], cd["group_imports"])) if empty else "plain")
             if rep.violation(key, {"pool_id": pid, "kind": kind, "style": style, "marker": mark, "config": c["config"], "input": c["text"], "out": r["out"]},
                              "a comment injected %s a %s of %s appears %d times in the output" % (style.replace("_", " "), kind, pid, cnt)):
                 found += 1
     rep.coverage["e2e_injections_judged"] = n
     rep.coverage["e2e_per_position"] = {"%s/%s" % k: v for k, v in sorted(per.items())}
-    rep.coverage["e2e_rule"] = "pool source programs (thorough: all; quick: the 1/%d selected by the seed) x up to 2 elements of each kind %s x {block comment before, line comment on its own line before, line comment / block comment at the end of the element's line} under the program's configuration and, alternating, style_edition 2024 or another max_width (30 / 50 / 70 / 140): the marker comment must appear exactly once in the output of every accepted run; a block comment at a random token boundary inside up to 6 statements per program (anywhere inside a statement of a function body); plus 66 synthetic expressions with a comment only the safety net can keep, after char / byte / string / raw-string literals containing quotes and comment openers" % (MOD, E2E_KINDS)
+    rep.coverage["e2e_rule"] = "pool source programs (thorough: all; quick: the 1/%d selected by the seed) x up to 2 elements of each kind %s x {block comment before, line comment on its own line before, line comment / block comment at the end of the element's line} under the program's configuration and, rotating, style_edition 2024, another max_width (30 / 50 / 70 / 140) or one of 20 layout-option presets (fn_single_line, group_imports, brace styles, heuristics, Visual indent, comment options ...); 17 one-statement bodies / empty items x line and block comment x 10 single-line option sets (fn_single_line, match_arm_blocks, single-line if/else and let-else, struct_lit_single_line, empty_item_single_line, where_single_line); 40 generated import runs (empty lists included) with comments before / after their declarations under group_imports x imports_granularity x reorder_imports: the marker comment must appear exactly once in the output of every accepted run; a block comment at a random token boundary inside up to 6 statements per program (anywhere inside a statement of a function body); plus 66 synthetic expressions with a comment only the safety net can keep, after char / byte / string / raw-string literals containing quotes and comment openers" % (MOD, E2E_KINDS)
     return found
 
 
